@@ -1,7 +1,7 @@
 (* C05 — the model interface mirrors the callable's signature.  Statements only; proofs in theories/Interface.v
    over gen/GenInterface.v (the always-keep decision translated from the current source). *)
 From Coq Require Import ZArith String List Bool.
-From J2O Require Import PyLib Onnx Interface IoNames.
+From J2O Require Import PyLib Onnx Interface IoNames IoAlias.
 From J2OGen Require Import GenInterface.
 Import ListNotations.
 
@@ -83,3 +83,45 @@ Theorem C05_names_refuse_existing : forall vals pairs v n t w,
   forall vals', apply_names vals pairs <> inl vals'.
 Proof. exact apply_refuses_intermediate. Qed.
 Print Assumptions C05_names_refuse_existing.
+
+(* ---- the aliasing step before output names are applied (model theories/IoAlias.v [alias_loop]): an output that IS
+   a graph input or repeats an earlier output gets an Identity value of its own, so that every leaf of the result
+   can carry its own name.  For every output list (any repeats), every graph: *)
+
+(* the `while alias_name in existing_names: alias_name += "_"` loop terminates with an unused name *)
+Theorem C05_alias_name_loop_fresh : forall s existing,
+  ~ In (fresh_from (List.length existing) s existing) existing.
+Proof. exact fresh_from_fresh. Qed.
+Print Assumptions C05_alias_name_loop_fresh.
+
+(* one output per leaf, in order *)
+Theorem C05_alias_keeps_output_count : forall outs bases taken existing next os al,
+  List.length bases = List.length outs ->
+  alias_loop outs bases taken existing next = (os, al) -> List.length os = List.length outs.
+Proof. exact alias_loop_length. Qed.
+Print Assumptions C05_alias_keeps_output_count.
+
+(* afterwards the outputs are pairwise distinct values and none of them is a graph input *)
+Theorem C05_alias_outputs_own_values : forall outs bases taken existing next os al,
+  List.length bases = List.length outs ->
+  (forall x, In x taken -> x < next) -> (forall x, In x outs -> x < next) ->
+  alias_loop outs bases taken existing next = (os, al) ->
+  NoDup os /\ (forall x, In x os -> ~ In x taken).
+Proof. exact alias_loop_distinct. Qed.
+Print Assumptions C05_alias_outputs_own_values.
+
+(* position by position the output is the original value or an Identity of it *)
+Theorem C05_alias_outputs_same_data : forall outs bases taken existing next os al,
+  List.length bases = List.length outs ->
+  alias_loop outs bases taken existing next = (os, al) ->
+  Forall2 (fun v o => o = v \/ exists a, In (o, a, v) al) outs os.
+Proof. exact alias_loop_sources. Qed.
+Print Assumptions C05_alias_outputs_same_data.
+
+(* the names given to the aliases are new and pairwise distinct (they cannot break the SSA naming) *)
+Theorem C05_alias_names_fresh : forall outs bases taken existing next os al,
+  alias_loop outs bases taken existing next = (os, al) ->
+  NoDup (map (fun e => snd (fst e)) al) /\
+  (forall n, In n (map (fun e => snd (fst e)) al) -> ~ In n existing).
+Proof. exact alias_loop_names_fresh. Qed.
+Print Assumptions C05_alias_names_fresh.
